@@ -6,9 +6,13 @@ from checks import c09 as P
 
 HMOD = "Cfg.Fs Cfg.GoMod Cfg.Pipeline Harness.C10"
 # one failing stage for (the file of) one interface / one package; None = nothing fails
-STAGES = [None, None, "MissingRemoteTemplate", "SchemaReject", "TemplateExecution", "InvalidGoOutput",
-          "PrepareFailure", "SchemaMissing", "TemplateSyntax", "UnknownTemplate", None, "UnknownFormatter"]
-STATES = ["absent", "absent", "same", "stale", "user", "user", "dir"]
+STAGES = [None, None, "MissingRemoteTemplate", "SchemaRejectIface", "TemplateExecution", "InvalidGoOutput",
+          "PrepareFailure", "SchemaMissing", "TemplateSyntax", "UnknownTemplateRootPkg", None, "UnknownFormatterIface",
+          "SchemaRejectLater", "UnknownTemplateEntry", None, "SchemaRejectEntry"]
+CLASS_OF = lambda k: re.sub(r"(RootPkg|Root|Pkg|Iface|Entry|Later)$", "", k)
+# absent / what the run would write / that plus a trailing comment / LONGER than the new content and
+# different from its first line on (an earlier run with more mocks) / user content / a directory
+STATES = ["absent", "absent", "same", "stale", "longer", "longer", "user", "user", "dir"]
 FORCE_MODES = ["unset", "root-true", "root-false", "pkg-true", "pkg-false-root-true", "pkg-true-root-false",
                "iface-same", "iface-diff"]
 
@@ -58,8 +62,6 @@ def set_force(rng, scn, mode):
             for t in tgt:
                 if t is not None:
                     t["force-file-write"] = pv if mode == "iface-same" else (not pv)
-        if mode == "iface-diff":
-            scn["iface_force_diff"] = True
 
 
 def gen_c10(rng, i):
@@ -78,7 +80,7 @@ def gen_c10(rng, i):
             P.INJECTIONS[stage](rng, s)
             del s["base_ref"]
             cl = P.classes_of(P.resolve(P.bind(s, "/nonexistent"), "/nonexistent"))
-            if stage not in cl or P.foreign_class(s):
+            if CLASS_OF(stage) not in cl:
                 continue
         outs = outputs(s)
         if not outs or len({q["key"] for l in outs.values() for _, q in l}) > 5:
@@ -96,7 +98,7 @@ def gen_c10(rng, i):
         st = rng.choice(STATES)
         states[rel] = st
         pkgname = lst[0][1]["pkgname"] or "x"
-        if st in ("same", "stale"):
+        if st in ("same", "stale", "longer"):
             s["init_from_ref"][rel] = st
         elif st == "user":
             s["init"][rel] = b"package " + pkgname.encode() + b"\n\n// written by hand, not by mockery\n"
@@ -113,7 +115,7 @@ def gen_c10(rng, i):
         if states[rel] == "absent" and (parent in ("m/a", "m/b", "m/c", "m/r", "m/r/s1", "m/r/s2")):
             s["ro"].append(parent)
             s["tags"].append("ro:parent-dir")
-        elif states[rel] in ("user", "stale"):
+        elif states[rel] in ("user", "stale", "longer"):
             s["ro"].append(rel)
             s["tags"].append("ro:file")
         elif states[rel] == "absent" and rel.startswith("m/mocks/"):
@@ -123,24 +125,15 @@ def gen_c10(rng, i):
     return s, base
 
 
-def file_fails(world, lst):
+def file_fails(world, lst, g):
     """Python mirror of `~ written_ok`: producing this file fails before anything is written"""
     p = lst[0][0]
-    c = p["cfg"]
-    if c["tstatus"] != "TOk" or not c["tfound"] or not c["tparses"]:
+    if p["cfg"]["tstatus"] != "TOk":
         return True
-    if c["tkind"] == "TRemote" and c["require_schema"] and not c["schema_ok"]:
+    kind = world["templates"][g["template"]][0]
+    if kind == "TRemote" and g["require_schema"] and not g["schema_ok"]:
         return True
-    if world["formatter"] == "FUnknown":
-        return True
-    for _, q in lst:
-        if not q["prep_ok"] or not q["exec_ok"]:
-            return True
-        if c["validates"] and (not c["data_ok"] or not q["data_ok"]):
-            return True
-        if not q["syntax_ok"] and world["formatter"] != "FNoop":
-            return True
-    return False
+    return any(P.req_fails(world, q, g) for _, q in lst)
 
 
 def oracle_c10(res):
@@ -153,6 +146,7 @@ def oracle_c10(res):
     for p, q in P.selected(world):
         if not q["outside"]:
             outs.setdefault(tuple(q["path"]), []).append((p, q))
+    gov = P.governing(world)
     anc = {o[:k] for o in outs for k in range(len(o))}
     for path in sorted(set(before) | set(after)):
         b, a = before.get(path), after.get(path)
@@ -164,31 +158,27 @@ def oracle_c10(res):
             continue
         if b != a:
             errs.append("stray write: %s is not a designated output (before %s, after %s)" % ("/".join(path), b, a))
-    any_fail = False
     for path, lst in sorted(outs.items()):
         b, a = before.get(path), after.get(path)
         ref = res["ref_contents"].get(path)
         name = "/".join(path)
-        fails = file_fails(world, lst)
-        any_fail = any_fail or fails
+        g = gov[lst[0][1]["key"]]                # the first mock of the file: its config governs the file
+        fails = file_fails(world, lst, g)
         if b == "DIR" and a != "DIR":
             errs.append("the directory that occupies output path %s was replaced" % name)
-        if a != b:
-            if ref is None or a != ref:
-                errs.append("output %s holds neither its old node nor the complete new content" % name)
-            if fails:
-                errs.append("output %s changed although producing it fails at a stage before writing" % name)
-            if b is not None:
-                pk_force = any(p["cfg"]["force"] for p, _ in lst)
-                if scn.get("iface_force_diff"):
-                    allowed = pk_force or any(True in [x for x in q["force_levels"] if x is not None] for _, q in lst)
-                else:
-                    allowed = pk_force
-                if not allowed:
-                    errs.append("existing node at %s was replaced although force-file-write is false" % name)
-        if b is not None and res["run"]["cls"] == "Exit0" and not scn.get("iface_force_diff"):
-            if not any(p["cfg"]["force"] for p, _ in lst):
+        # every output path ends up holding its complete old content or the complete new content
+        # (the new content = what the same configuration writes into a pristine tree)
+        if a != b and (ref is None or a != ref):
+            errs.append("output %s holds neither its old node nor the complete new content" % name)
+        if a != b and fails:
+            errs.append("output %s changed although producing it fails at a stage before writing" % name)
+        if a != b and b is not None and not g["force"]:
+            errs.append("existing node at %s was replaced although force-file-write is false" % name)
+        if res["run"]["cls"] == "Exit0":
+            if b is not None and not g["force"]:
                 errs.append("exit status 0 although %s was occupied and force-file-write is false" % name)
+            if ref is not None and a != ref:
+                errs.append("exit status 0 but output %s does not hold the complete new content" % name)
     return errs
 
 
@@ -219,11 +209,10 @@ def check(ctx, only=None):
             errs.append("the valid base configuration of this scenario does not succeed: %s" % res["ref"]["tail"][-300:])
         if errs:
             oracle_fail.append(P.to_replay(res, errs))
-        if not scn.get("iface_force_diff"):
-            t, nkeys = P.build_case(res)
-            if nkeys <= 6:
-                terms.append(t)
-                tidx.append(res)
+        t, nkeys = P.build_case(res)
+        if nkeys <= 6:
+            terms.append(t)
+            tidx.append(res)
         if len(samples) < 3:
             samples.append(P.describe(res))
     bad, errs2 = coq_mismatches(ctx, HMOD, terms, shard=12) if terms else ([], [])
@@ -261,7 +250,7 @@ def check(ctx, only=None):
                                        "runs": len(results), "coq_cases": len(terms), "skipped_no_setpriv": skipped},
                        assumptions=["read-only scenarios run mockery through `setpriv` without CAP_DAC_OVERRIDE (the harness runs as root); if setpriv is unavailable they are skipped and counted",
                                     "Python resolver (harness/checks/c09.py: resolve) computes the effective per-mock values of the generated configurations",
-                                    "force-file-write written at the interface level with a value that differs from the package level is judged by the oracle in a weak form only (which level counts is property C08's subject)"])
+                                    "the settings of an output file (force-file-write, formatter, schema settings) are those of the first mock added to it: first = discovery order within the package (files by name, declarations in source order, configs entries in list order)"])
 
 
 def replay(ctx, path):
